@@ -161,7 +161,13 @@ package signing
 //@   loop 1 invariant forall m in 0..sent(errChs) :: (errBlamesPeer(round, errChs, m) && arr(errAt(errChs, m).culprits) != arr(culprits))
 //@   loop 1 invariant forall c in 0..len(culprits) :: peerOf(round, culprits[c])
 //@   loop 1 invariant sent(errChs) == 0 ==> (forall k in 0..sgN(round) :: (k != i ==> (alphas[k] != nil && us[k] != nil && fresh(alphas[k]) && fresh(us[k]))))
-//@   loop 2 invariant sg3Elems(round) && round.started && thelta != nil && sigma != nil && modN != nil && !fresh(modN) && val(modN) == secpN && len(alphas) == sgN(round) && len(us) == sgN(round) && sent(round.out) == old(sent(round.out))
+//@   loop 2 invariant sg3Elems(round)
+//@   loop 2 invariant round.started && thelta != nil && sigma != nil
+//@   loop 2 invariant modN != nil
+//@   loop 2 invariant !fresh(modN)
+//@   loop 2 invariant val(modN) == secpN
+//@   loop 2 invariant len(alphas) == sgN(round) && len(us) == sgN(round)
+//@   loop 2 invariant sent(round.out) == old(sent(round.out))
 //@   loop 2 invariant forall k in 0..sgN(round) :: (k != sgI(round) ==> (alphas[k] != nil && us[k] != nil && fresh(alphas[k]) && fresh(us[k])))
 
 // round_2.go: Bob's side of both MtA runs towards every peer j.
